@@ -16,7 +16,11 @@ CFG = {
     # operations of the Coq kernel, not logical axioms.  The generic and the Qc theorems are
     # `Closed under the global context`.
     'axioms': (_PRIM + ['PrimFloat.' + p for p in _PRIM] + ['PrimInt63.' + p for p in _PRIMINT] + ['Uint63.' + p for p in _PRIMINT]
-               + _FLOAT_AXIOMS + ['FloatAxioms.' + a for a in _FLOAT_AXIOMS]),
+               + _FLOAT_AXIOMS + ['FloatAxioms.' + a for a in _FLOAT_AXIOMS]
+               # scale covariance for binary64 goes through Flocq (reals) and the Prim2SF/SF2Prim link
+               + ['ClassicalDedekindReals.sig_forall_dec', 'ClassicalDedekindReals.sig_not_dec', 'Classical_Prop.classic',
+                  'FunctionalExtensionality.functional_extensionality_dep']
+               + [q + a for q in ('', 'FloatAxioms.') for a in ('Prim2SF_SF2Prim', 'Prim2SF_valid', 'SF2Prim_Prim2SF', 'abs_spec')]),
     'uses_gen': False,
     'rule': 'differential, bit for bit (16-hex-digit patterns, NaN payload ignored): per case line one waveform and one '
             'response; the REAL nn_greedy_deconvolution for every (offset, look_ahead) of a grid (wire grid 0..=1 x 3..=12 '
@@ -72,3 +76,5 @@ CFG = {
     'note': 'a difference between model and implementation is a waveform on which the production loop departs from the '
             'proved-equivalent plain greedy scheme (or a change of grid constants / response tables / float semantics)',
 }
+
+CFG["level_extra"] = ('Scale covariance is proved FOR BINARY64 (C17_nn_greedy_scale_f64, C17_ls_deconv_scale_f64, C17_pad/wire_deconv_scale_f64): under a boolean, executable no-overflow/no-underflow predicate over the values the run actually produces (|k| <= 500), scaling the waveform by 2^k leaves every control decision unchanged and scales amplitudes by 2^k and the residual by 4^k bit for bit; the eleven op-level laws are proved through Flocq.')
